@@ -10,7 +10,9 @@ EXPLANATION = (
     "the both-shared case must be distinguished and must merge the two classes (re-pointing every member), otherwise joins that "
     "close a cycle leave two classes for one geometric dof; (R14.2) gap-free numbering: numdofs = M_ofs[-1] + len(shared_dofs) "
     "requires finalize to drop classes emptied by merging and to renumber; (R14.3) the index array built from a dict's items keeps "
-    "rank 2 and an integer dtype in the empty case; (R14.4) face/flip/accumulation conventions agree.")
+    "rank 2 and an integer dtype in the empty case; (R14.4) face/flip/accumulation conventions agree.  Membership of a side is a "
+    "fact only when tested with `is not None` / `in`: class ids are list positions starting at 0, so a truth-value test of an id "
+    "is reported.")
 DOES_NOT_DECIDE = "geometric interface detection (numerical matching); equality of assembled systems"
 TECHNIQUE = "custom AST rules: branch case analysis of a union step, def-use of class tables, rank/dtype of constructed index arrays, convention agreement"
 
